@@ -798,3 +798,21 @@ MUTANTS += [
  dict(name='seed-C17-decode-branch-on-buffer-flag', prop='C17', patch='seeded/C17-decode-branch-on-buffer-flag/patch.diff', expect='VIOLATION property=C17'),
  dict(name='seed-C20-lazy-dispatch-init', prop='C20', patch='seeded/C20-lazy-dispatch-init/patch.diff', expect='R-EFFECT'),
 ]
+# ---- round-5 seeded changes
+MUTANTS += [
+ dict(name='seed-C05-equal-same-z-fastpath', prop='C05', patch='seeded/C05-equal-same-z-fastpath/patch.diff', expect='R-GUARD/G8'),
+ dict(name='seed-C09-identity-padding-field-parse', prop='C09', patch='seeded/C09-identity-padding-via-field-parse/patch.diff', expect='VIOLATION property=C09'),
+ dict(name='seed-C10-generator-no-identity-retry', prop='C10', patch='seeded/C10-generator-no-identity-retry/patch.diff', expect='reject|nonidentity'),
+ dict(name='seed-C07-powers-random-single-draw', prop='C07', patch='seeded/C07-powers-random-single-draw/patch.diff', expect='reject|powers|digit'),
+ dict(name='seed-C07-powers-random-single-draw-c10', prop='C10', patch='seeded/C07-powers-random-single-draw/patch.diff', expect='reject|powers|digit'),
+ dict(name='c05-equal-coordinate-compare-before-guards', prop='C05', expect='R-GUARD/G8',
+      edits=[('include/bls12_381/curve.hpp', '            /* Point at infinity is represented by z = 0. */\n            if (a.is_zero()) {\n                return b.is_zero();\n            }\n\n            if (b.is_zero()) {\n                return false;\n            }\n',
+              '            if (BaseField::equal(a.x, b.x) && BaseField::equal(a.y, b.y) && BaseField::equal(a.z, b.z)) {\n                return true;\n            }\n            if (a.is_zero()) {\n                return b.is_zero();\n            }\n\n            if (b.is_zero()) {\n                return false;\n            }\n')]),
+ dict(name='c05-affine-equal-ignores-infinity-mismatch', prop='C05', expect='G8|affine-equal',
+      edits=[('include/bls12_381/curve.hpp', 'return (a.infinity == b.infinity) && (a.infinity || (x_equal && y_equal));', 'return (a.infinity && b.infinity) || (x_equal && y_equal);')]),
+ dict(name='c05-benign-equal-guards-swapped', prop='C05', benign=True, expect='',
+      edits=[('include/bls12_381/curve.hpp', '            if (a.is_zero()) {\n                return b.is_zero();\n            }\n\n            if (b.is_zero()) {\n                return false;\n            }\n',
+              '            if (b.is_zero()) {\n                return a.is_zero();\n            }\n\n            if (a.is_zero()) {\n                return false;\n            }\n')]),
+ dict(name='c05-benign-affine-equal-rewritten', prop='C05', benign=True, expect='',
+      edits=[('include/bls12_381/curve.hpp', 'return (a.infinity == b.infinity) && (a.infinity || (x_equal && y_equal));', 'return a.infinity ? b.infinity : (!b.infinity && x_equal && y_equal);')]),
+]
